@@ -23,6 +23,12 @@ type AbsKey struct {
 
 type syncEnt struct{ k, v Value }
 
+// RawKey is freshly generated key material (rsa/ecdsa/ed25519 private key).
+type RawKey struct {
+	kty string
+	id  int
+}
+
 // AbsParseOpt is the engine-native jwk.ParseOption.
 type AbsParseOpt struct{ ignoreParseError bool }
 
@@ -350,6 +356,49 @@ func (e *Engine) cryptoIntrinsic(fn *ssa.Function, full string, args []Value) (V
 			}
 		}
 		return TupleVal{*e.parseResult, IfaceVal{}}, true
+	case "crypto/rsa.GenerateKey", "crypto/ecdsa.GenerateKey", "crypto/ed25519.GenerateKey":
+		// fresh key material of the function's key type; generation itself is the library's
+		e.atomSeq++
+		kty := map[string]string{"crypto/rsa.GenerateKey": "RSA", "crypto/ecdsa.GenerateKey": "EC", "crypto/ed25519.GenerateKey": "OKP"}[full]
+		slot := new(Value)
+		*slot = &RawKey{kty: kty, id: e.atomSeq}
+		raw := IfaceVal{typ: e.sh.marks.opaque, val: PtrVal{slot}}
+		_ = raw
+		if full == "crypto/ed25519.GenerateKey" {
+			return TupleVal{PtrVal{slot}, PtrVal{slot}, IfaceVal{}}, true
+		}
+		return TupleVal{PtrVal{slot}, IfaceVal{}}, true
+	case "crypto/elliptic.P521", "crypto/elliptic.P256", "crypto/elliptic.P384":
+		return IfaceVal{typ: e.sh.marks.opaque, val: PtrVal{new(Value)}}, true
+	case "github.com/lestrrat-go/jwx/v2/jwk.FromRaw":
+		var rk *RawKey
+		switch a := args[0].(type) {
+		case IfaceVal:
+			if p, ok := a.val.(PtrVal); ok && p.slot != nil {
+				rk, _ = (*p.slot).(*RawKey)
+			}
+		}
+		if rk == nil {
+			unsupported("jwk.FromRaw of key material the engine did not generate")
+		}
+		k := &AbsKey{valid: tTrue, hasAlg: tFalse, kty: mkStr(rk.kty), id: rk.id}
+		slot := new(Value)
+		*slot = k
+		return TupleVal{IfaceVal{typ: e.sh.marks.opaque, val: PtrVal{slot}}, IfaceVal{}}, true
+	case "github.com/lestrrat-go/jwx/v2/jwk.PublicKeyOf":
+		orig, ok := opaqueObj(args[0])
+		ak, ok2 := orig.(*AbsKey)
+		if !ok || !ok2 {
+			unsupported("jwk.PublicKeyOf of a non-abstract key")
+		}
+		cp := *ak // the public half carries the private key's attributes
+		slot := new(Value)
+		*slot = &cp
+		return TupleVal{IfaceVal{typ: e.sh.marks.opaque, val: PtrVal{slot}}, IfaceVal{}}, true
+	case "github.com/lestrrat-go/jwx/v2/jwk.NewSet":
+		slot := new(Value)
+		*slot = &AbsSet{}
+		return IfaceVal{typ: e.sh.marks.opaque, val: PtrVal{slot}}, true
 	case "github.com/lestrrat-go/jwx/v2/jwk.WithIgnoreParseError":
 		slot := new(Value)
 		*slot = &AbsParseOpt{ignoreParseError: e.decide(args[0].(*Term))}
@@ -449,6 +498,42 @@ func (e *Engine) invokeIntrinsic(recv IfaceVal, method *types.Func, args []Value
 			}
 			// jwx returns an invalid (empty) key algorithm when none is set
 			return IfaceVal{typ: e.libNamed(jwaPath, "InvalidKeyAlgorithm"), val: StrVal{}}, true
+		case "Set":
+			// attributes of a key: alg (a jwa algorithm value or its name), kid, use;
+			// the key material is not touched
+			field := e.mustStr(args[0], "jwk.Key.Set field")
+			vi, _ := args[1].(IfaceVal)
+			switch field {
+			case "alg":
+				sv, isStr := vi.val.(StrVal)
+				if !isStr {
+					return e.newError(mkStr("jwk: invalid value for alg")), true
+				}
+				kind := 2
+				if n, ok := vi.typ.(*types.Named); ok {
+					switch n.Obj().Name() {
+					case "SignatureAlgorithm":
+						kind = 0
+					case "KeyEncryptionAlgorithm":
+						kind = 1
+					}
+				}
+				if kind == 2 {
+					unsupported("jwk.Key.Set(alg) with a value that is not a jwa algorithm")
+				}
+				obj.hasAlg, obj.algKind, obj.algName = tTrue, kind, sv
+				return IfaceVal{}, true
+			case "kid":
+				sv, isStr := vi.val.(StrVal)
+				if !isStr {
+					return e.newError(mkStr("jwk: invalid value for kid")), true
+				}
+				obj.kid = sv
+				return IfaceVal{}, true
+			case "use":
+				return IfaceVal{}, true
+			}
+			unsupported("jwk.Key.Set(%q)", field)
 		case "KeyType":
 			return obj.kty, true
 		case "KeyID":
@@ -481,6 +566,9 @@ func (e *Engine) invokeIntrinsic(recv IfaceVal, method *types.Func, args []Value
 				return TupleVal{IfaceVal{}, tFalse}, true
 			}
 			return TupleVal{obj.keys[i], tTrue}, true
+		case "AddKey":
+			obj.keys = append(obj.keys, args[0].(IfaceVal))
+			return IfaceVal{}, true
 		case "LookupKeyID":
 			want := args[0].(StrVal)
 			for _, k := range obj.keys {
